@@ -33,7 +33,9 @@ PARAM_TWINS = {
     "StronglyConvexFunction": [("SmoothStronglyConvexFunction", lambda p: {"mu": p["mu"], "L": INF}, False)],
     "ConvexLipschitzFunction": [("SmoothConvexLipschitzFunction", lambda p: {"L": INF, "M": p["M"]}, False)],
     "MonotoneOperator": [("StronglyMonotoneOperator", lambda p: {"mu": 0.0}, None),
-                         ("CocoerciveOperator", lambda p: {"beta": 0.0}, False)],
+                         ("CocoerciveOperator", lambda p: {"beta": 0.0}, False),
+                         ("CocoerciveStronglyMonotoneOperator", lambda p: {"mu": 0.0, "beta": 0.0}, False),
+                         ("LipschitzStronglyMonotoneOperator", lambda p: {"mu": 0.0, "L": INF}, False)],
     "NonexpansiveOperator": [("LipschitzOperator", lambda p: {"L": 1.0}, None)],
     "CocoerciveOperator": [("CocoerciveStronglyMonotoneOperator", lambda p: {"mu": 0.0, "beta": p["beta"]}, None)],
 }
